@@ -115,6 +115,9 @@ public:
     const T *base_data() const { return buf.get(); }
     T *mutable_base_data() { return buf.get(); }
     ssize_t base_size() const { return nalloc; }
+    // a view into the same allocation: numpy basic slicing (a[i:j], a[x, i:j], ...) -- `first` counts elements from base[0]
+    array_data view(std::vector<ssize_t> shape, std::vector<ssize_t> byte_strides, ssize_t first) const {
+        array_data v(*this); v.shp = std::move(shape); v.str = std::move(byte_strides); v.ptr = buf.get() + first; return v; }
     bool same_buffer(const array_data &o) const { return buf.get() == o.buf.get() && ptr == o.ptr; }
     // numpy's NPY_ARRAY_C_CONTIGUOUS / NPY_ARRAY_F_CONTIGUOUS
     bool c_contiguous() const {
